@@ -200,3 +200,112 @@ pub fn backward_error(a: &F, x: &[f64], b: &[f64]) -> f64 {
         rmax / den
     }
 }
+
+/// lattice helpers ---------------------------------------------------------------------------------
+/// n x n matrix whose entries are the base-|letters| digits of idx (row-major, least significant first)
+pub fn mat_from_idx(mut idx: u64, n: usize, letters: &[Rat]) -> M {
+    let l = letters.len() as u64;
+    let mut m = zeros(n, n);
+    for i in 0..n {
+        for j in 0..n {
+            m[i][j] = letters[(idx % l) as usize];
+            idx /= l;
+        }
+    }
+    m
+}
+pub fn vec_from_idx(mut idx: u64, n: usize, letters: &[Rat]) -> Vec<Rat> {
+    let l = letters.len() as u64;
+    let mut v = vec![r_(0); n];
+    for i in 0..n {
+        v[i] = letters[(idx % l) as usize];
+        idx /= l;
+    }
+    v
+}
+pub fn to_f(m: &M) -> F {
+    m.iter().map(|r| r.iter().map(|x| x.to_f64()).collect()).collect()
+}
+/// number of row exchanges textbook partial pivoting (largest magnitude, first on ties) performs, exactly
+pub fn exchanges(a: &M) -> usize {
+    let n = a.len();
+    let mut m = a.clone();
+    let mut ex = 0;
+    for k in 0..n {
+        let mut p = k;
+        for i in k + 1..n {
+            if ohsl::Signed::abs(&m[i][k]) > ohsl::Signed::abs(&m[p][k]) {
+                p = i;
+            }
+        }
+        if m[p][k].is_zero() {
+            continue;
+        }
+        if p != k {
+            m.swap(p, k);
+            ex += 1;
+        }
+        for i in k + 1..n {
+            let f = m[i][k] / m[k][k];
+            for j in k..n {
+                let t = m[k][j];
+                m[i][j] = m[i][j] - f * t;
+            }
+        }
+    }
+    ex
+}
+
+/// Gaussian rationals for the complex lattices (independent of ohsl's Complex)
+#[derive(Clone, Copy, PartialEq, Debug)]
+pub struct CQ {
+    pub re: Rat,
+    pub im: Rat,
+}
+impl CQ {
+    pub fn new(re: Rat, im: Rat) -> CQ {
+        CQ { re, im }
+    }
+    pub fn zero() -> CQ {
+        CQ { re: r_(0), im: r_(0) }
+    }
+    pub fn is_zero(&self) -> bool {
+        self.re.is_zero() && self.im.is_zero()
+    }
+    pub fn add(self, o: CQ) -> CQ {
+        CQ { re: self.re + o.re, im: self.im + o.im }
+    }
+    pub fn sub(self, o: CQ) -> CQ {
+        CQ { re: self.re - o.re, im: self.im - o.im }
+    }
+    pub fn mul(self, o: CQ) -> CQ {
+        CQ { re: self.re * o.re - self.im * o.im, im: self.re * o.im + self.im * o.re }
+    }
+    pub fn div(self, o: CQ) -> CQ {
+        let d = o.re * o.re + o.im * o.im;
+        CQ { re: (self.re * o.re + self.im * o.im) / d, im: (self.im * o.re - self.re * o.im) / d }
+    }
+    pub fn neg(self) -> CQ {
+        CQ { re: -self.re, im: -self.im }
+    }
+}
+pub fn det_cq(a: &Vec<Vec<CQ>>) -> CQ {
+    let n = a.len();
+    match n {
+        0 => CQ::new(r_(1), r_(0)),
+        1 => a[0][0],
+        2 => a[0][0].mul(a[1][1]).sub(a[0][1].mul(a[1][0])),
+        _ => {
+            let mut s = CQ::zero();
+            for j in 0..n {
+                if a[0][j].is_zero() {
+                    continue;
+                }
+                let minor: Vec<Vec<CQ>> = (1..n).map(|i| (0..n).filter(|&c| c != j).map(|c| a[i][c]).collect()).collect();
+                let t = a[0][j].mul(det_cq(&minor));
+                s = if j % 2 == 0 { s.add(t) } else { s.sub(t) };
+            }
+            s
+        }
+    }
+}
